@@ -149,6 +149,24 @@ def mk_closure(g: grid.Grid[Any, Any]):
     def inner(h: grid.Grid[Any, Any]):
         gate.global_rz(0.5)
     return inner
+
+@tweezer
+def outer(g: grid.Grid[Any, Any]):
+    def inner(h: grid.Grid[Any, Any]):
+        action.set_loc(g)
+    return inner
+
+@tweezer
+def outer_free():
+    def inner(h: grid.Grid[Any, Any]):
+        action.set_loc(h)
+    return inner
+
+@tweezer(fold=False)
+def outer_free_nofold():
+    def inner(h: grid.Grid[Any, Any]):
+        action.set_loc(h)
+    return inner
 '''
 
 
@@ -158,7 +176,12 @@ def tracer_guard(ctx):
     from bloqade.shuttle.codegen import TraceInterpreter
     mod = T.load_source(GUARD_SRC, "guard")
     G = Grid.from_positions([0.0], [0.0])
-    for kind, mt, want_refused in (("tweezer", mod.tk, False), ("move", mod.mk, True), ("kernel", mod.kk, True)):
+    plain = T.load_source("from kirin.prelude import basic_no_opt\n\n@basic_no_opt\ndef pf(g):\n    return None\n", "guardplain")
+    for kind, mt, want_refused in (("tweezer", mod.tk, False), ("move", mod.mk, True), ("kernel", mod.kk, True),
+                                   ("plain kirin function", plain.pf, True),
+                                   ("closure capturing a value", mod.outer(G), False),
+                                   ("closure capturing nothing", mod.outer_free(), False),
+                                   ("closure capturing nothing (fold=False)", mod.outer_free_nofold(), False)):
         it = TraceInterpreter(ArchSpec())
         case = {"tracer_guard": kind}
         ctx.seen(("guard", kind), True)
